@@ -195,6 +195,34 @@ def progress_or_raise(ctx, rep, rule):
                       trace(e.st))
 
 
+def _all_nested_ok(ctx, v):
+    """v == all(<x>.check_cycles() for x in <members yielded by topological_order() that are schedulers>)"""
+    r = ctx.roles
+    if not (v[0] == 'call' and v[1] == 'all' and len(v[2]) == 1 and v[2][0][0] == 'comp'):
+        return False
+    c = v[2][0]
+    if len(c[3]) != 1 or c[3][0][2]:
+        return False
+    key, it, _ = c[3][0]
+    elem = T.mk(('elem', it, key))
+    if c[2] != T.mk(('mcall', elem, 'check_cycles', (), ())):
+        return False
+    src_ = strip_coll(it)
+    if src_[0] != 'comp' or len(src_[3]) != 1:
+        return False
+    k2, it2, conds = src_[3][0]
+    e2 = T.mk(('elem', it2, k2))
+    if src_[2] != e2 or strip_coll(it2)[0] != 'gen' or not strip_coll(it2)[1].endswith('topological_order'):
+        return False
+    if len(conds) != 1:
+        return False
+    cd = conds[0]
+    if not (cd[0] == 'call' and cd[1] == 'isinstance' and cd[2][0] == e2 and cd[2][1][0] == 'class'):
+        return False
+    cls = ctx.prog.classes.get(cd[2][1][1])
+    return cls is not None and r.sched in cls.mro
+
+
 def check_cycles_rules(ctx, rep, rule):
     """R15.5 both forms of check_cycles; consumers iterate in the generator's order"""
     r = ctx.roles
@@ -231,6 +259,10 @@ def check_cycles_rules(ctx, rep, rule):
                           "a cyclic graph is declared sound", trace(e.st))
             elif v == T.FALSE:
                 rep.ok(rule, "%s return False" % e.where)
+            elif _all_nested_ok(ctx, v):
+                # return all(n.check_cycles() for n in <nested members met by the scan>)
+                rep.ok(rule, "%s returns all(nested.check_cycles() ...) over the scan" % e.where)
+                e.data['all_form'] = True
             else:
                 rep.fail(rule, "%s returns a boolean" % e.where, fn, "`%s`" % src(stmt_of(e.node)),
                          "check_cycles() must return True or False", trace(e.st))
@@ -242,8 +274,9 @@ def check_cycles_rules(ctx, rep, rule):
         rep.check(bool(caught), rule, "%s handles the scan's exception" % fn, fn,
                   "no handler catches the exception raised by the ordering generator",
                   "check_cycles() raises on a cyclic graph instead of returning False")
-        loops_over_topo = [n for n in walk_local(f.node) if isinstance(n, ast.For)
-                           and isinstance(n.iter, ast.Call) and dotted(n.iter.func) == 'self.topological_order']
+        loops_over_topo = [n for n in walk_local(f.node) if isinstance(n, ast.Call)
+                           and dotted(n.func) == 'self.topological_order'
+                           and isinstance(getattr(n, '_parent', None), (ast.For, ast.comprehension))]
         rep.check(bool(loops_over_topo), rule, "%s scans with topological_order()" % fn, fn,
                   "no loop over self.topological_order()", "cycles are not looked for at all")
         if f.cls in r.nestable or (f.cls is not r.sched):
@@ -265,7 +298,8 @@ def check_cycles_rules(ctx, rep, rule):
                 for d in flat(e.st):
                     if any(k[0] == 'mcall' and k[2] == 'check_cycles' and v is False for k, v in d.items()):
                         rec.append((e, d))
-            rep.check(bool(rec), rule, "%s recursion into nested schedulers" % fn, fn,
+            allform = [e for e in rets if e.data.get('all_form')]
+            rep.check(bool(rec) or bool(allform), rule, "%s recursion into nested schedulers" % fn, fn,
                       "no `return False` under `not <member>.check_cycles()` inside the scan",
                       "a cycle inside a nested scheduler is not detected")
             # completeness: True is returned only if every member either is not a nested
@@ -661,7 +695,17 @@ def queries(ctx, rep, r1, r2, r3, r4, r5, r6):
             v = y.data['val']
             succ = T.mk(('attr', v, rev))
             fv = T.mk(('attr', v, 'forever'))
-            conds = {k: b for k, b in y.st.facts.items() if T.contains(k, v) and k != MEMBERS}
+            def atoms(t):
+                if t[0] == 'boolop':
+                    out_ = set()
+                    for x in t[2]:
+                        out_ |= atoms(x)
+                    return out_
+                if t[:2] == ('unop', 'not'):
+                    return atoms(t[2])
+                return {t}
+            conds = {k: b for k, b in y.st.facts.items() if T.contains(k, v) and k != MEMBERS
+                     and not (k[0] in ('boolop', 'unop') and atoms(k) <= {succ, fv})}
             want = {succ: False}
             if dval:
                 want[fv] = False
@@ -764,103 +808,115 @@ def _step_shape(ctx, rep, rule, stepf, attparam):
         rep.ok(rule, "%s comprehension form" % fn)
 
 
+class ClosureModel(GraphModel):
+    """GraphModel + additions to local collections, and whether the current pass of a while
+    loop has added anything when the loop is left"""
+
+    def on_call(self, ip, node, fterm, args, kws, st, fr):
+        f = node.func
+        if isinstance(f, ast.Attribute) and isinstance(f.value, ast.Name) and f.attr in ('add', 'append') \
+                and fr.depth == 0 and st.var(fr.fid, f.value.id) is not None and f.value.id != 'self' and args:
+            conds = tuple(sorted(((k, v) for k, v in st.facts.items()
+                                  if T.contains(k, args[0]) and not any(k == c.iter for c in ip.loopctx)), key=repr))
+            self.ev(ip, 'LADD', node, st, fr, name=f.value.id, arg=args[0], conds=conds,
+                    coll=st.var(fr.fid, f.value.id))
+            st = st.set(added=True)
+            # fall through to the generic handling of the mutation, in the new state
+            return ip.call_generic(node, fterm, args, kws, st, fr)
+        return GraphModel.on_call(self, ip, node, fterm, args, kws, st, fr)
+
+    def on_iter(self, ip, ctx, st, fr):
+        if ctx.kind == 'while' and not ip.in_summary:
+            st = st.set(added=False)
+            if fr.depth == 0:
+                # the sets the loop adds to are named, not expanded: their own term would otherwise
+                # contain itself (elements of the result are computed from elements of the result)
+                names = {n.func.value.id for n in ast.walk(ctx.node)
+                         if isinstance(n, ast.Call) and isinstance(n.func, ast.Attribute)
+                         and n.func.attr in ('add', 'append') and isinstance(n.func.value, ast.Name)}
+                for nm in sorted(names):
+                    cur = st.var(fr.fid, nm)
+                    if cur is None:
+                        continue
+                    opaque = T.mk(('coll', nm))
+                    if not st.a('seeded'):
+                        self.ev(ip, 'SEED', ctx.node, st, fr, name=nm, value=cur)
+                    st = st.with_var(fr.fid, nm, opaque)
+                st = st.set(seeded=True)
+        if ctx.kind == 'for' and not ip.in_summary and fr.depth == 0:
+            self.ev(ip, 'PASSLOOP', ctx.node, st, fr, iter=ctx.iter,
+                    in_while=any(c.kind == 'while' for c in ip.loopctx),
+                    nested=sum(1 for c in ip.loopctx if c.kind == 'for'),
+                    vars={k[1]: v for k, v in st.vars.items() if k[0] == fr.fid})
+        return GraphModel.on_iter(self, ip, ctx, st, fr)
+
+    def on_loop_exit(self, ip, ctx, st, fr):
+        if ctx.kind == 'while' and not ip.in_summary:
+            self.ev(ip, 'WEXIT', ctx.node, st, fr, added=st.a('added', False))
+        return GraphModel.on_loop_exit(self, ip, ctx, st, fr)
+
+
 def _closure_shape(ctx, rep, rule, clos, stepf):
-    from ..flow import _may_stop_early
+    """R17.4, decided on the paths of the closure helper (the step helper kept symbolic):
+    seeded with one step from all the starts; every element added to the result is a step from
+    an element of the result; additions only guarded by `not yet in the result`; the loop is
+    left only after a pass that added nothing; the result is what is returned."""
     fn = clos.qualname
-    body = clos.node.body
-    whiles = [n for n in walk_local(clos.node) if isinstance(n, ast.While)]
-    if len(whiles) != 1:
-        rep.error(rule, "%s: expected one while loop, found %d" % (fn, len(whiles)))
-        return
-    w = whiles[0]
-    # seed: result = set(self.step(att, *starts))
-    seeds = [n for n in body if isinstance(n, ast.Assign) and n.lineno < w.lineno and len(n.targets) == 1
-             and isinstance(n.targets[0], ast.Name)]
-    res = None
-    for s_ in seeds:
-        calls = [c for c in ast.walk(s_.value) if isinstance(c, ast.Call) and isinstance(c.func, ast.Attribute)
-                 and c.func.attr == stepf.name]
-        if calls:
-            res = s_.targets[0].id
-            c = calls[0]
-            ok = len(c.args) >= 2 and isinstance(c.args[-1], ast.Starred) and isinstance(c.args[-1].value, ast.Name) \
-                and c.args[-1].value.id == clos.vararg
-            rep.check(ok, rule, "%s seeded with one step from all the starts" % fn, fn, "`%s`" % src(s_),
-                      "the closure does not start from the direct neighbours of every start job")
-    if res is None:
-        bad = [s_ for s_ in seeds if any(isinstance(n, ast.Name) and n.id == clos.vararg for n in ast.walk(s_.value))]
-        rep.fail(rule, "%s seeded with one step from all the starts" % fn, fn,
-                 "`%s`" % (src(bad[0]) if bad else "no seed built from the step helper"),
-                 "the closure contains the start jobs themselves (zero links) or misses the first step")
-        return
-    # exit only when a pass added nothing
-    cnts = [n.targets[0].id for n in w.body if isinstance(n, ast.Assign) and isinstance(n.targets[0], ast.Name)
-            and isinstance(n.value, ast.Constant) and n.value.value in (0, False)]
-    exits = [n for n in ast.walk(w) if isinstance(n, (ast.Break, ast.Return))]
-    rep.check(bool(cnts) and bool(exits), rule, "%s has a per-pass change counter and an exit" % fn, fn,
-              "counter reset per pass: %s, exits: %d" % (cnts, len(exits)),
-              "the closure loop never ends, or ends regardless of progress")
-    for x in exits:
-        par = getattr(x, '_parent', None)
-        ok = isinstance(par, ast.If) and par in w.body and (
-            (isinstance(par.test, ast.UnaryOp) and isinstance(par.test.op, ast.Not)
-             and isinstance(par.test.operand, ast.Name) and par.test.operand.id in cnts) or
-            (isinstance(par.test, ast.Compare) and isinstance(par.test.left, ast.Name) and par.test.left.id in cnts
-             and isinstance(par.test.ops[0], ast.Eq) and isinstance(par.test.comparators[0], ast.Constant)
-             and par.test.comparators[0].value == 0))
+    an, ip, out = ctx.explore(clos, model=ClosureModel, no_inline=(stepf.name,))
+    att = T.mk(('var', clos.params[1])) if len(clos.params) > 1 else None
+    starts = T.mk(('var', clos.vararg)) if clos.vararg else None
+
+    def is_step(t, of=None):
+        t = strip_coll(t)
+        if not (t[0] == 'mcall' and t[1] == T.SELF and t[2] == stepf.name and len(t[3]) == 2 and t[3][0] == att):
+            return False
+        return of is None or t[3][1] == of
+    adds = an.events('LADD')
+    rep.need(rule, len(adds), 1, "additions to the closure")
+    rets = [(st, v, n) for st, v, n in out.ret]
+    rep.check(bool(rets), rule, "%s returns the closure" % fn, fn, "no return", "nothing is returned")
+    results = {e.data['name'] for e in adds}
+    rep.check(len(results) == 1, rule, "%s one result set" % fn, fn, "additions go to %s" % sorted(results),
+              "the closure is spread over several sets")
+    res = sorted(results)[0] if results else None
+    # the seed: what the result holds when the loop is first entered
+    seeds = {e.data['value'] for e in an.events('SEED') if e.data['name'] == res}
+    C = T.mk(('coll', res))
+    for sd in seeds:
+        ok = is_step(sd, T.mk(('star', starts)))
+        rep.check(ok, rule, "%s seeded with one step from all the starts" % fn, fn,
+                  "the result starts as %s" % T.show(sd, 4),
+                  "the closure contains the start jobs themselves (zero links), or misses the first step")
+    rep.check(bool(seeds), rule, "%s has a seed" % fn, fn, "the result set has no initial content",
+              "the closure is always empty")
+    for e in adds:
+        a = e.data['arg']
+        # the added element is one step away from an element of the result
+        ok = a[0] == 'elem' and is_step(a[1]) and strip_coll(a[1])[3][1][0] == 'elem'
+        src_ok = False
         if ok:
-            # the test must come after the scanning loops of the pass
-            idx = w.body.index(par)
-            ok = any(isinstance(n, ast.For) for n in w.body[:idx])
-        rep.check(ok, rule, "%s:%d loop left only after a pass that added nothing" % (clos.module.relpath, x.lineno), fn,
-                  "`%s` under `%s`" % (src(x), src(par.test) if isinstance(par, ast.If) else 'no condition'),
-                  "the closure stops after a fixed number of passes: jobs further than that many links away "
-                  "are missed")
-    fors = [n for n in w.body if isinstance(n, ast.For)]
-    rep.check(bool(fors), rule, "%s scans the closure on each pass" % fn, fn, "no loop in the body of the while",
-              "nothing is ever added")
-    for o in fors:
-        it = ast.unparse(o.iter)
-        ok = it in ("%s.copy()" % res, "list(%s)" % res, "set(%s)" % res, "tuple(%s)" % res, "frozenset(%s)" % res)
-        rep.check(ok, rule, "%s each pass applies the step to every element found so far" % fn, fn,
-                  "pass iterates over `%s`" % it, "the step is not applied to every element of the closure")
-        rep.check(not _may_stop_early(o), rule, "%s pass runs to its end" % fn, fn,
-                  "the scanning loop can stop early", "elements are skipped")
-        inner = [l for l in ast.walk(o) if isinstance(l, ast.For) and l is not o]
-        for i in inner:
-            c = i.iter
-            ok = isinstance(c, ast.Call) and isinstance(c.func, ast.Attribute) and c.func.attr == stepf.name \
-                and len(c.args) == 2 and isinstance(c.args[1], ast.Name) and isinstance(o.target, ast.Name) \
-                and c.args[1].id == o.target.id
-            rep.check(ok, rule, "%s inner loop is one step from the current element" % fn, fn, "`%s`" % src(c),
-                      "the closure is not closed under the step")
-            tgt = i.target.id if isinstance(i.target, ast.Name) else None
-            adds = [a for a in ast.walk(i) if isinstance(a, ast.Call) and isinstance(a.func, ast.Attribute)
-                    and a.func.attr == 'add' and isinstance(a.func.value, ast.Name) and a.func.value.id == res]
-            rep.check(bool(adds), rule, "%s new elements are added" % fn, fn, "no `%s.add(...)`" % res,
-                      "the closure never grows")
-            for a in adds:
-                blk = getattr(a, '_parent', None)
-                blk = getattr(blk, '_parent', None)
-                sib = blk.body if hasattr(blk, 'body') else []
-                inc = any((isinstance(s_, ast.AugAssign) and isinstance(s_.target, ast.Name) and s_.target.id in cnts)
-                          or (isinstance(s_, ast.Assign) and isinstance(s_.targets[0], ast.Name)
-                              and s_.targets[0].id in cnts) for s_ in sib)
-                rep.check(inc, rule, "%s:%d every addition counts as progress" % (clos.module.relpath, a.lineno), fn,
-                          "`%s` without updating the change counter" % src(a),
-                          "the loop stops although the last pass found new jobs: the closure is incomplete")
-                for test, pol in _guards_of(a, i):
-                    okg = isinstance(test, ast.Compare) and isinstance(test.left, ast.Name) and test.left.id == tgt \
-                        and isinstance(test.ops[0], (ast.In, ast.NotIn)) \
-                        and ast.unparse(test.comparators[0]) == res \
-                        and (isinstance(test.ops[0], ast.NotIn) == pol)
-                    rep.check(okg, rule, "%s:%d addition guarded only by `not yet in the closure`"
-                              % (clos.module.relpath, a.lineno), fn, "`%s` is %s" % (src(test), pol),
-                              "some reachable jobs are left out of the closure")
-    rets = [n for n in walk_local(clos.node) if isinstance(n, ast.Return)]
-    rep.check(any(isinstance(x.value, ast.Name) and x.value.id == res for x in rets), rule,
-              "%s returns the closure" % fn, fn, "returns %s" % [src(x) for x in rets],
-              "the computed closure is not what is returned")
+            src_coll = strip_coll(strip_coll(a[1])[3][1][1])
+            cur = e.data['coll']
+            # the element comes from the result set as it is now, or as it was at the start of the pass
+            src_ok = src_coll == C or src_coll == cur or C in T.union_items(src_coll)
+        rep.check(ok and src_ok, rule, "%s each addition is one step from an element of the closure" % e.where, fn,
+                  "`%s` adds %s" % (src(stmt_of(e.node)), T.show(a, 4)),
+                  "the result is not closed under the step (or follows another relation)", trace(e.st))
+        for k, v in e.data['conds']:
+            okg = k[0] == 'cmp' and k[1] in ('in', 'not in') and k[2] == a and (v == (k[1] == 'not in'))
+            rep.check(okg, rule, "%s addition guarded only by `not yet in the closure`" % e.where, fn,
+                      "`%s` is %s" % (T.show(k, 3), v), "some reachable jobs are left out of the closure", trace(e.st))
+    wex = an.events('WEXIT')
+    rep.need(rule + ":exit", len(wex), 1, "exits of the closure loop")
+    for e in wex:
+        rep.check(not e.data['added'], rule, "%s loop left only after a pass that added nothing" % e.where, fn,
+                  "the loop can be left right after a pass that added new jobs",
+                  "jobs further than a fixed number of links away are missed: the closure is incomplete", trace(e.st))
+    for st, v, n in rets:
+        cur = st.var(T.mk(()), res) if res else None
+        rep.check(cur is not None and (v == cur or v == C or C in T.union_items(v)), rule,
+                  "%s returns the closure" % ip.where(n), fn,
+                  "returns %s" % T.show(v, 3), "what is returned is not the computed closure", trace(st))
 
 
 def _traversal(ctx, rep, rule):
@@ -908,9 +964,14 @@ def _traversal(ctx, rep, rule):
                     if recv is not None and recv[0] == 'elem' and recv[1] == MEMBERS:
                         conds = [k for k in y.st.facts if T.contains(k, recv) and k != MEMBERS]
                         lp = [c for c in y.loops if c.elem == recv]
-                        if not conds and lp and not lp[0].conds:
+                        if g[0] == 'mcall':
+                            passed = list(g[3]) + [v for _k, v in g[4]]
+                        else:
+                            passed = [v for k, v in g[2] if k != 'self']
+                        fwd = flag is not None and T.mk(('var', flag)) in passed
+                        if not conds and lp and not lp[0].conds and fwd:
                             okd = True
-            rep.check(okd, rule, "%s delegates to every member's hook" % site, f.qualname,
+            rep.check(okd, rule, "%s delegates to every member's hook, forwarding the flag" % site, f.qualname,
                       "delegations: %s" % [T.show(y.data['val'], 4) for y in dele],
                       "jobs inside a nested scheduler are not all visited")
     nest_impl = [c for c, f in impls if c in r.nestable or any(c in n.mro for n in r.nestable)]
@@ -924,7 +985,15 @@ def _traversal(ctx, rep, rule):
     okd = any(y.data['val'][1][0] in ('mcall', 'gen') and not [k for k in y.st.facts
                                                                 if k[0] != 'var' and k != MEMBERS and not k == T.mk(('var', pub.params[1] if len(pub.params) > 1 else ''))]
               for y in dele)
-    rep.check(okd, rule, "iterate_jobs visits every member", pub.qualname,
+    pflag = T.mk(('var', pub.params[1])) if len(pub.params) > 1 else None
+    def forwards(g):
+        if g[0] == 'mcall':
+            return pflag in list(g[3]) + [v for _k, v in g[4]]
+        if g[0] == 'gen':
+            return pflag in [v for _k, v in g[2]]
+        return False
+    okd = okd and any(forwards(y.data['val'][1]) for y in dele)
+    rep.check(okd, rule, "iterate_jobs visits every member, forwarding the flag", pub.qualname,
               "delegations: %s" % [(T.show(y.data['val'], 3), [(T.show(k, 2), v) for k, v in y.st.facts.items()]) for y in dele],
               "some members are not visited")
 
@@ -964,60 +1033,82 @@ def surgery(ctx, rep, r1, r2, r3):
                           "self.jobs becomes %s" % T.show(v, 4),
                           "keep_only(R) does not keep exactly the members of R")
         else:
-            S = T.mk(('call', 'set', (('var', 'starts'),), ()))
-            E = T.mk(('call', 'set', (('var', 'ends'),), ()))
+            # the milestone sets, found by what is done with them (not by the names of locals):
+            # S is what gets added back under keep_starts, E under keep_ends
+            ups0 = [e for e in an.events('CALL') if e.data['meth'] == 'update' and e.data['recv'] != T.SELF
+                    and e.data['args']]
+            S_all = {e.data['args'][0] for e in ups0 if e.st.facts.get(T.mk(('var', 'keep_starts'))) is True}
+            E_all = {e.data['args'][0] for e in ups0 if e.st.facts.get(T.mk(('var', 'keep_ends'))) is True}
 
             def side(term, meth, arg):
                 if term == MEMBERS:
                     return 'all'
                 if term[0] == 'mcall' and term[1] == T.SELF and term[2] == meth and len(term[3]) == 1 \
-                        and term[3][0][0] == 'star' and term[3][0][1] == arg:
+                        and term[3][0][0] == 'star' and (term[3][0][1] == arg or term[3][0][1] in
+                                                         (S_all if meth == 'successors_downstream' else E_all)):
                     return 'closure'
                 return None
+            dn = {x[3][0][1] for ev_ in an.log for val_ in ev_.data.values() if isinstance(val_, tuple)
+                  for x in T.subterms(val_)
+                  if len(x) == 5 and x[0] == 'mcall' and x[2] == 'successors_downstream' and x[3] and x[3][0][0] == 'star'}
+            un = {x[3][0][1] for ev_ in an.log for val_ in ev_.data.values() if isinstance(val_, tuple)
+                  for x in T.subterms(val_)
+                  if len(x) == 5 and x[0] == 'mcall' and x[2] == 'predecessors_upstream' and x[3] and x[3][0][0] == 'star'}
             for e in stores:
                 v = e.data['val']
                 items = T.union_items(v)
                 core = [i for i in items if i[0] == 'binop' and i[1] == 'BitAnd']
-                Sx = e.st.var(e.fr.fid, 'starts')
-                Ex = e.st.var(e.fr.fid, 'ends')
-                ok = len(core) == 1 and Sx is not None and Ex is not None
+                ok = len(core) == 1
                 why = "self.jobs becomes %s" % T.show(v, 5)
                 if ok:
                     c = core[0]
-                    d = side(c[2], 'successors_downstream', Sx) and side(c[3], 'predecessors_upstream', Ex)
-                    d2 = side(c[3], 'successors_downstream', Sx) and side(c[2], 'predecessors_upstream', Ex)
-                    down, up = (c[2], c[3]) if d else (c[3], c[2])
-                    ok = bool(d or d2)
+
+                    def kind(term):
+                        if term == MEMBERS:
+                            return 'all', None
+                        if term[0] == 'mcall' and term[1] == T.SELF and len(term[3]) == 1 and term[3][0][0] == 'star':
+                            if term[2] == 'successors_downstream':
+                                return 'down', term[3][0][1]
+                            if term[2] == 'predecessors_upstream':
+                                return 'up', term[3][0][1]
+                        return None, None
+                    (k1, a1), (k2, a2) = kind(c[2]), kind(c[3])
+                    ok = k1 is not None and k2 is not None and not (k1 == k2 and k1 != 'all')
                     if ok:
-                        sd = side(down, 'successors_downstream', Sx)
-                        su = side(up, 'predecessors_upstream', Ex)
-                        ts, te = e.st.facts.get(Sx), e.st.facts.get(Ex)
-                        ok = (sd == 'closure') == (ts is True) if ts is not None else True
-                        ok = ok and ((su == 'closure') == (te is True) if te is not None else True)
-                        if not ok:
-                            why += " with starts %s and ends %s" % ("given" if ts else "empty", "given" if te else "empty")
+                        down = a1 if k1 == 'down' else a2 if k2 == 'down' else None
+                        up = a1 if k1 == 'up' else a2 if k2 == 'up' else None
+                        # a closure is taken only from a non-empty milestone set, the full member set
+                        # only when the milestone set is empty
+                        if down is not None and e.st.known(down) is False:
+                            ok = False
+                        if up is not None and e.st.known(up) is False:
+                            ok = False
+                        if down is None and any(e.st.known(x) is True for x in S_all):
+                            ok, why = False, why + " although starts are given"
+                        if up is None and any(e.st.known(x) is True for x in E_all):
+                            ok, why = False, why + " although ends are given"
+                        # downstream is computed from the starts, upstream from the ends
+                        if down is not None and S_all and down not in S_all:
+                            ok, why = False, why + " (downstream of something that is not the starts)"
+                        if up is not None and E_all and up not in E_all:
+                            ok, why = False, why + " (upstream of something that is not the ends)"
                     rest = set(items) - set(core)
-                    ok = ok and rest <= {Sx, Ex}
+                    ok = ok and rest <= (S_all | E_all)
                 rep.check(ok, r3, "%s member set = downstream(starts) & upstream(ends) (+starts, +ends)" % e.where, fn, why,
                           "keep_only_between keeps another subset than the documented one", trace(e.st))
-            ups = [e for e in an.events('CALL') if e.data['meth'] == 'update' and e.data['recv'] != T.SELF]
             seen = set()
-            for e in ups:
-                a = e.data['args'][0] if e.data['args'] else None
-                Sx = e.st.var(e.fr.fid, 'starts')
-                Ex = e.st.var(e.fr.fid, 'ends')
+            for e in ups0:
+                a = e.data['args'][0]
                 ks = e.st.facts.get(T.mk(('var', 'keep_starts')))
                 ke = e.st.facts.get(T.mk(('var', 'keep_ends')))
-                if a == Sx and Sx == Ex:
-                    # both milestones defaulted to the same empty set: either flag explains the update
-                    seen.add('starts' if ks else 'ends')
-                    ok = ks is True or ke is True
-                elif a == Sx:
+                empty = e.st.known(a) is False or a == T.mk(('call', 'set', (('union', frozenset()),), ()))
+                ok = True
+                if ks is True:
                     seen.add('starts')
-                    ok = ks is True
-                elif a == Ex:
+                    ok = a in dn or (empty and a not in un) or (not dn and a not in un)
+                elif ke is True:
                     seen.add('ends')
-                    ok = ke is True
+                    ok = a in un or (empty and a not in dn) or (not un and a not in dn)
                 else:
                     ok = False
                 rep.check(ok, r3, "%s milestones added back under their own flag" % e.where, fn,
